@@ -4,6 +4,7 @@ WSGI environ, a scripted auth back-end / rights back-end (vlib.x_C05_plugins) an
 import base64
 import io
 import os
+import urllib.parse
 
 from vlib import core, impl
 from vlib import x_C05_plugins as plug
@@ -140,6 +141,14 @@ CTYPES = [None, None, None, "text/xml; charset=utf-8", "text/xml; charset=iso885
 CLENS = [None, None, None, "", "0", "50", "100", "101", "99999999999", "abc", "-5", " 7 ", "1_0", "1e3", "100000000", "100000001"]
 
 
+OTHER_ID_KEYS = ["HTTP_REMOTE_USER", "HTTP_X_FORWARDED_USER", "HTTP_X_USER", "HTTP_USER", "HTTP_AUTHENTICATED_USER",
+                 "HTTP_X_AUTHENTICATED_USER", "HTTP_X_WEBAUTH_USER", "HTTP_X_AUTH_USER", "HTTP_X_REMOTE_USERNAME", "HTTP_X_REMOTE_USER_",
+                 "HTTP_FROM", "REMOTE_IDENT", "AUTH_USER", "LOGON_USER", "REDIRECT_REMOTE_USER", "USER", "LOGNAME"]
+CONFIGURED_KEY = {"remote_user": "REMOTE_USER", "http_x_remote_user": "HTTP_X_REMOTE_USER"}
+IDENTITY_KEYS = OTHER_ID_KEYS + list(CONFIGURED_KEY.values())
+ID_VALUES = ["admin", "root", "alice", "mallory", "Bob"]
+
+
 def b64(b):
     return base64.b64encode(b).decode("ascii")
 
@@ -239,6 +248,19 @@ def gen_case(rng, rig):
         env["REMOTE_USER"] = rng.choice(LOGINS + ["", "mallory", "root"])
     if rng.random() < 0.35 or cfg["kind"] == "http_x_remote_user" and rng.random() < 0.8:
         env["HTTP_X_REMOTE_USER"] = rng.choice(LOGINS + ["", "mallory", "root"])
+    # other identity-looking variables / client headers: no back-end may take the user from them
+    if rng.random() < 0.35:
+        for k in rng.sample(OTHER_ID_KEYS, rng.randint(1, 3)):
+            env[k] = rng.choice(ID_VALUES)
+    conf_key = CONFIGURED_KEY.get(cfg["kind"])
+    if conf_key and rng.random() < 0.3:
+        # the gateway did not authenticate the request; the client sends look-alike headers
+        if rng.random() < 0.5:
+            env.pop(conf_key, None)
+        else:
+            env[conf_key] = ""
+        for k in rng.sample(OTHER_ID_KEYS + [x for x in CONFIGURED_KEY.values() if x != conf_key], rng.randint(1, 3)):
+            env[k] = rng.choice(ID_VALUES)
     cl = rng.choice(CLENS)
     if cl is not None:
         env["CONTENT_LENGTH"] = cl
@@ -254,9 +276,9 @@ def gen_case(rng, rig):
         if text is not None and ":" in text:
             login_seen.append(text.split(":", 1)[0])
             pw_seen.append(text.split(":", 1)[1])
-    for k in ("REMOTE_USER", "HTTP_X_REMOTE_USER"):
-        if k in env:
-            login_seen.append(env[k])
+    for k in IDENTITY_KEYS:
+        if k in env and env[k] not in login_seen:
+            login_seen.append(env[k])     # (also makes the look-alike names candidates for rights / existing principals)
     pw_seen.append("")
     strings = [method] + login_seen
     upper = [(s, s.upper()) for s in dict.fromkeys(strings + [s.lower() for s in strings])]
@@ -298,7 +320,8 @@ def run_case(rig, case):
     after = impl.tree_dump(rig.srv.folder)
     events = list(rig.events)
     return dict(status=status, www="WWW-Authenticate" in headers, www_value=headers.get("WWW-Authenticate"),
-                location=headers.get("Location"), events=events, store_changed=before != after,
+                location=None if headers.get("Location") is None else urllib.parse.unquote(headers["Location"]),   # modulo percent-encoding (C18)
+                events=events, store_changed=before != after,
                 new_entries=[e[0] for e in after if e not in before])
 
 
